@@ -755,7 +755,95 @@ def g_tah_hist(rng):
     return "tah " + " ".join(steps)
 
 
+# ---------------------------------------------------------------- MTBDD histories
+MT_NV, MT_NQ = 4, 6
+
+
+def rand_asgn(rng, n, px=0.45):
+    return "".join("X" if rng.random() < px else rng.choice("01") for _ in range(n))
+
+
+def g_mth(rng, rc=False):
+    steps = []
+    live = []        # (index, upper bound on variables used)
+    n = 0
+
+    def new(maxvar):
+        nonlocal n
+        live.append((n, maxvar))
+        n += 1
+
+    for _ in range(rng.randint(2, 3)):
+        c = rng.random()
+        if c < 0.85:
+            steps.append(f"con!{rand_asgn(rng, MT_NV)}!{rng.randint(1, 5)}!{rng.choice([0, 0, 0, 1])}")
+            new(MT_NV)
+        else:
+            steps.append(f"leaf!{rng.randint(0, 4)}")
+            new(0)
+    for _ in range(rng.randint(3, 12)):
+        if not live:
+            break
+        c = rng.random()
+        (i, mi) = rng.choice(live)
+        (j, mj) = rng.choice(live)
+        (l, ml) = rng.choice(live)
+        if c < 0.10:
+            steps.append(f"con!{rand_asgn(rng, MT_NV)}!{rng.randint(1, 5)}!{rng.choice([0, 0, 1])}")
+            new(MT_NV)
+        elif c < 0.20:
+            steps.append(f"copy!{i}")
+            new(mi)
+        elif c < 0.28:
+            if i == j or rng.random() < 0.2:
+                steps.append(f"selfassign!{i}")
+            else:
+                steps.append(f"assign!{i}!{j}")
+                live[:] = [(x, (mj if x == i else m)) for (x, m) in live]
+        elif c < 0.36 and len(live) > 1:
+            steps.append(f"kill!{i}")
+            live[:] = [(x, m) for (x, m) in live if x != i]
+        elif c < 0.44:
+            steps.append(f"ap1!{i}!{rng.randrange(0, 4)}")
+            new(mi)
+        elif c < 0.62:
+            steps.append(f"ap2!{i}!{j}!{rng.randrange(0, 4)}")
+            new(max(mi, mj))
+        elif c < 0.68:
+            steps.append(f"ap2to!{i}!{j}!{rng.randrange(0, 4)}")
+            live[:] = [(x, (max(mi, mj) if x == i else m)) for (x, m) in live]
+        elif c < 0.80:
+            steps.append(f"ap3!{i}!{j}!{l}!{rng.randrange(0, 3)}")
+            new(max(mi, mj, ml))
+        elif c < 0.85 and not rc:
+            steps.append(f"proj!{i}!{rng.randrange(1, 1 << MT_NQ)}!{rng.choice([2, 3, 2, 3, 0])}")
+            new(mi)
+        elif c < 0.89 and mi <= MT_NV:
+            off = rng.randint(0, MT_NQ - MT_NV)
+            steps.append(f"ren!{i}!{off}")
+            new(mi + off)
+        elif c < 0.92 and mi <= MT_NV:
+            k = MT_NQ - MT_NV
+            steps.append(f"ext!{i}!{rand_asgn(rng, k, 0.3)}!{MT_NV}")
+            new(MT_NQ)
+        elif c < 0.95:
+            off = rng.randint(0, MT_NQ)
+            steps.append(f"pre!{i}!{rand_asgn(rng, MT_NQ - off + 1, 0.2)}!{off}")
+            new(mi)
+        elif c < 0.98:
+            steps.append(f"paths!{i}")
+        else:
+            steps.append(f"getv!{i}!{rand_asgn(rng, MT_NQ, 0.4)}")
+    return ("mthrc " if rc else "mth ") + " ".join(steps)
+
+
+def g_mthrc(rng):
+    """C18: as g_mth without Project (which is outside the property's quantifier and leaves count-0 nodes behind)"""
+    return g_mth(rng, rc=True)
+
+
 GENERATORS = {
+    "mth": g_mth, "mthrc": g_mthrc,
     "tah_store": g_tah_store, "tah_hist": g_tah_hist,
     "lts": g_lts,
     "nfah_incl": g_nfah_incl, "nfah_ops": g_nfah_ops, "nfah_hist": g_nfah_hist,
